@@ -121,27 +121,7 @@ impl vstd::std_specs::convert::FromSpecImpl<IoError> for RequestCreationError {
 }
 
 // ---- the property's framing decision table, as a spec function of the header list ----
-pub open spec fn hdr_is(h: Header, name: Seq<char>) -> bool { eq_ic(name, h.field.name()) }
-pub open spec fn is_first(hs: Seq<Header>, name: Seq<char>, i: int) -> bool {
-    0 <= i < hs.len() && hdr_is(hs[i], name) && forall|j: int| 0 <= j < i ==> !hdr_is(#[trigger] hs[j], name)
-}
-pub open spec fn has_hdr(hs: Seq<Header>, name: Seq<char>) -> bool { exists|i: int| is_first(hs, name, i) }
-/// value of the FIRST header with that name (meaningful when has_hdr)
-pub open spec fn first_value(hs: Seq<Header>, name: Seq<char>) -> Seq<char> { hs[choose|i: int| is_first(hs, name, i)].value@ }
-pub proof fn lemma_first(hs: Seq<Header>, name: Seq<char>, i: int)
-    requires is_first(hs, name, i)
-    ensures has_hdr(hs, name), first_value(hs, name) == hs[i].value@
-{
-    let k = choose|k: int| is_first(hs, name, k);
-    if k < i { assert(!hdr_is(hs[k], name)); } else if i < k { assert(!hdr_is(hs[i], name)); }
-}
-pub proof fn lemma_none(hs: Seq<Header>, name: Seq<char>)
-    requires forall|j: int| 0 <= j < hs.len() ==> !hdr_is(#[trigger] hs[j], name)
-    ensures !has_hdr(hs, name)
-{
-    if has_hdr(hs, name) { let k = choose|k: int| is_first(hs, name, k); assert(hdr_is(hs[k], name)); }
-}
-
+//@include contracts/header_lookup.inc
 pub open spec fn f_te(hs: Seq<Header>) -> bool { has_hdr(hs, "Transfer-Encoding"@) }
 /// declared length: Transfer-Encoding takes precedence over any Content-Length; the value must be
 /// "a plain decimal number the server can represent" (property C16) -- anything else is f_cl_bad
